@@ -238,8 +238,10 @@ func (s *Stor) flusher() {
 }
 
 func (s *Stor) flush() {
-	chunks := s.chunks.Load().([][]byte)
+	// load curFlushChunk before chunks (which only grows)
+	// otherwise a concurrent FlushTo could set it past the chunks we loaded
 	curFlushChunk := s.curFlushChunk.Load()
+	chunks := s.chunks.Load().([][]byte)
 	prevFlushChunk := s.prevFlushChunk.Load()
 	for c := prevFlushChunk; c <= curFlushChunk; c++ {
 		// log.Println("flush", c)
